@@ -5,7 +5,8 @@ open Lean VizierModel.Driver VizierModel VizierModel.Wire
 /-! JSON line driver for C09.  Strings travel as arrays of code points, rationals as "p/q",
 integers as JSON numbers.  Request: {"op": T, "cfg": [readNanos, defaultHasField,
 recurseBeforeCopy, infeasibleEndTime], "x": <python-side value>, "back": <optional observed value>}.
-Answer: {"proto", "back", "again", "norm", "norm_back"?, "ok"?}. -/
+Answer: {"proto", "back", "again", "norm", "norm_mback" (normal form of the model's own result),
+"norm_back"? (normal form of the observed result), "ok"?}. -/
 
 abbrev E := Except String
 
@@ -334,7 +335,8 @@ def answer {α π : Type} (j : Json) (dec : Json → E α) (enc : α → Json) (
   let x ← dec (← fld j "x")
   let p := to x
   let b := frm p
-  let base := [("proto", encP p), ("back", enc b), ("again", encP (to b)), ("norm", enc (norm x))] ++ extra x
+  let base := [("proto", encP p), ("back", enc b), ("again", encP (to b)), ("norm", enc (norm x)),
+    ("norm_mback", enc (norm b))] ++ extra x
   match j.getObjVal? "back" with
   | .ok rb => do
     let y ← dec rb
